@@ -334,6 +334,18 @@ MUTANTS += [
     B("c19-fdr-threshold-carried-over", "C19", SVH, '    links = 0\n    links_order = {}\n    for order in sorted(pvalues):\n        n_a = len(set(np.concatenate(list(pvalues[order].keys()))))\n        n_possible = binom(n_a, order)\n        bonf = 0.01 / n_possible\n\n        temp_df = pd.DataFrame(pvalues[order].items())\n        temp_df.columns = ["edge", "pvalue"]\n        ps = np.sort(temp_df.pvalue)\n        k = np.arange(1, len(ps) + 1) * bonf\n        try:\n            fdr = k[ps < k][-1]\n        except:\n            fdr = 0\n        temp_df["fdr"] = temp_df["pvalue"] < fdr\n', '    fdr = 0\n    for order in sorted(pvalues):\n        n_a = len(set(np.concatenate(list(pvalues[order].keys()))))\n        n_possible = binom(n_a, order)\n        bonf = 0.01 / n_possible\n\n        temp_df = pd.DataFrame(pvalues[order].items())\n        temp_df.columns = ["edge", "pvalue"]\n        ps = np.sort(temp_df.pvalue)\n        k = np.arange(1, len(ps) + 1) * bonf\n        passing = k[ps < k]\n        if len(passing) > 0:\n            fdr = passing[-1]\n        temp_df["fdr"] = temp_df["pvalue"] < fdr\n', "V-PERSIZE"),
 ]
 
+# ---------------------------------------------------------------------- rules of seed round sc
+MUTANTS += [
+    # P-REINSERT always, re-insertion before the removal (Hypergraph.remove_node)
+    B("c01-shrink-skips-existing-key", "C01", H, "                self.add_edge(\n                    tuple(sorted([n for n in edge if n != node])),\n                    weight=self.get_weight(edge),\n                    metadata=self.get_edge_metadata(edge),\n                )\n", "                reduced = tuple(sorted([n for n in edge if n != node]))\n                if reduced not in self._edge_list:\n                    self.add_edge(\n                        reduced,\n                        weight=self.get_weight(edge),\n                        metadata=self.get_edge_metadata(edge),\n                    )\n", "P-REINSERT"),
+    # X-NODES: a parameter that selects among the nodes is not the requested node list
+    B("c05-keep-isolated-means-isolated", "C05", H, "            h.add_nodes(list(self.get_nodes()))", "            h.add_nodes(self.isolated_nodes(size=size))", "X-NODES"),
+    # M-COMPLEMENT size-known through `len(e) - 1 != order`
+    B("c13-complement-by-order", "C13", CM, "        if len(e) != size:\n            shuffled.add_edge(e)", "        if len(e) - 1 != order:\n            shuffled.add_edge(e)", "M-COMPLEMENT"),
+    # G-ARGSWAP
+    B("c15-updates-get-swapped-arguments", "C15", MMSBM, "self._w_update(binary_incidence, hye_weights)", "self._w_update(hye_weights, binary_incidence)", "G-ARGSWAP"),
+]
+
 
 def for_property(prop: str) -> List[Mutant]:
     return [m for m in MUTANTS if m.prop == prop]
